@@ -18,7 +18,7 @@ KNOWN_FILE = os.path.join(ROOT, "known_findings.json")
 
 class Entry:
     def __init__(self, name, fmode="real", imode="int", params=None, cap=None, budget=None, ad=(),
-                 ub_checks=False, note="", concretize_fptoi=False, shard=None, summarize_loops=False, lockmon=None, expect_reach=True, kinds=None, setup=None):
+                 ub_checks=False, note="", concretize_fptoi=False, shard=None, summarize_loops=False, skip_ids=(), lockmon=None, expect_reach=True, kinds=None, setup=None):
         self.name = name
         self.fmode = fmode
         self.imode = imode
@@ -30,6 +30,7 @@ class Entry:
         self.concretize_fptoi = concretize_fptoi
         self.shard = shard
         self.summarize_loops = summarize_loops
+        self.skip_ids = tuple(skip_ids)
         self.note = note
         self.lockmon = lockmon
         self.expect_reach = expect_reach
@@ -98,6 +99,7 @@ class Runner:
         self.quiet = False
         self.replayed = {}
         self.max_replays = 2
+        self.skipped = {}
 
     def log(self, *a):
         s = " ".join(str(x) for x in a)
@@ -233,6 +235,9 @@ class Runner:
         out = []
         for o in obligations:
             if ent.kinds is not None and o["kind"] not in ent.kinds:
+                continue
+            if ent.skip_ids and any(s in o["id"] for s in ent.skip_ids):
+                self.skipped[o["id"]] = self.skipped.get(o["id"], 0) + 1
                 continue
             key = (o["id"], o["goal"].get_id(), tuple(sorted(c.get_id() for c in o["pc"])))
             if key in seen:
